@@ -52,6 +52,11 @@ theorem stored_entry_is_origin_minus_hop (r : Resp) (b : Bool) (key : Str) (tr :
     obtain ⟨_, he2, _⟩ := hm
     subst he2
     rw [he]; exact ⟨hb, rfl, rfl, rfl⟩
+  | storedDropping id' en' refs old hb he _ _ =>
+    simp only [List.mem_cons, Step.setEntry.injEq, reduceCtorEq, List.not_mem_nil, or_false] at hm
+    obtain ⟨_, he2, _⟩ := hm
+    subst he2
+    rw [he]; exact ⟨hb, rfl, rfl, rfl⟩
 
 /-- serving from the store changes neither status nor body -/
 theorem served_status_and_body (f : Freshness) (now : Int) (e : Entry) (cc : Directives) :
